@@ -37,3 +37,119 @@ package pppoe
 
 //@ func FindTag
 //@   modifies nothing
+
+// ---- server.go / session.go: authentication gate and MAC ownership (C04) ----
+//
+// Gate: a session is moved to IPCP negotiation or Established, gets a client
+// address, or has an IPCP request answered only when session.Authenticated
+// holds; Authenticated is set only from the RADIUS verdict (or when no RADIUS
+// client is configured). These are preconditions of the granting operations,
+// checked at every call site, plus the provenance postcondition of handlePAP.
+
+//@ type Session
+//@   owns mu: State EstablishedAt LastActivity LCPIdentifier
+
+//@ type SessionManager
+//@   owns mu: sessions macToSession nextID
+
+//@ func (s *Session) SetState
+//@   requires (state == StateIPCPNegotiation || state == StateEstablished) ==> s.Authenticated
+//@   modifies s.State, s.EstablishedAt, s.LastActivity, s.LCPIdentifier
+//@   ensures s.State == state
+
+//@ func (s *Session) GetState
+//@   modifies s.State, s.EstablishedAt, s.LastActivity, s.LCPIdentifier
+
+//@ func (s *Session) IsEstablished
+//@   modifies s.State, s.EstablishedAt, s.LastActivity, s.LCPIdentifier
+
+//@ func (s *Session) UpdateActivity
+//@   modifies s.State, s.EstablishedAt, s.LastActivity, s.LCPIdentifier
+
+//@ func (s *Session) NextLCPIdentifier
+//@   modifies s.State, s.EstablishedAt, s.LastActivity, s.LCPIdentifier
+
+//@ func (s *Session) AddBytesIn
+//@   modifies s.BytesIn, s.PacketsIn
+
+//@ func (m *SessionManager) GetSession
+//@   modifies m.sessions, m.macToSession, m.nextID
+//@   sets lastSession = result
+
+//@ func (m *SessionManager) RemoveSession
+//@   modifies m.sessions, m.macToSession, m.nextID
+//@   sets removedID = id
+
+//@ iface rawSocket.send(iface, dstMAC, etherType, data)
+//@   modifies nothing
+
+//@ func BuildEthernetFrame
+//@   modifies nothing
+
+//@ func (h *PPPoEHeader) Serialize
+//@   modifies nothing
+//@   ensures fresh(result) && len(result) == 6 && cap(result) == 6
+
+//@ func zeroBytes
+//@   modifies b
+
+//@ func (p *IPPool) Allocate
+//@   modifies p.available, p.allocated
+
+//@ func (p *IPPool) Release
+//@   modifies p.available, p.allocated
+
+//@ func SerializeTags
+//@   modifies nothing
+
+//@ func (s *Session) AddBytesOut
+//@   modifies s.BytesOut, s.PacketsOut
+
+//@ func (s *Server) sendPPPPacket
+//@   requires session != nil
+//@   modifies session.BytesOut, session.PacketsOut
+
+//@ func (s *Server) sendDiscoveryPacket
+//@   modifies nothing
+
+//@ func (s *Server) startIPCPNegotiation
+//@   requires session != nil && session.Authenticated
+//@   modifies session.ClientIP, session.ServerIP, session.BytesOut, session.PacketsOut, session.State, session.EstablishedAt, session.LastActivity, session.LCPIdentifier, s.clientIPPool.available, s.clientIPPool.allocated
+
+//@ func (s *Server) handleIPCP
+//@   requires session != nil && session.Authenticated
+//@   modifies session.BytesOut, session.PacketsOut, session.State, session.EstablishedAt, session.LastActivity, session.LCPIdentifier
+
+//@ func (s *Server) handleIPCPConfigRequest
+//@   requires session != nil && pkt != nil && session.Authenticated
+//@   modifies session.BytesOut, session.PacketsOut
+
+//@ func (s *Server) handleIPCPConfigAck
+//@   requires session != nil && session.Authenticated
+//@   modifies session.State, session.EstablishedAt, session.LastActivity, session.LCPIdentifier
+
+//@ func (s *Server) handleIPPacket
+//@   requires session != nil
+//@   modifies session.State, session.EstablishedAt, session.LastActivity, session.LCPIdentifier
+
+//@ func (s *Server) handleLCP
+//@   requires session != nil
+//@   modifies *
+
+//@ func (s *Server) handlePAP
+//@   requires session != nil
+//@   ghost authAccepted bool = false
+//@   modifies *
+//@   ensures session.Authenticated ==> old(session.Authenticated) || old(s.radiusClient) == nil || authAccepted
+//@   ensures session.ClientIP != old(session.ClientIP) ==> session.Authenticated
+
+//@ func (s *Server) handleSession
+//@   ghost lastSession *Session = nil
+//@   modifies *
+//@   ensures lastSession != nil && !sameBytes(clientMAC, old(lastSession.ClientMAC)) ==> lastSession.Authenticated == old(lastSession.Authenticated) && lastSession.ClientIP == old(lastSession.ClientIP) && lastSession.BytesIn == old(lastSession.BytesIn) && lastSession.Username == old(lastSession.Username)
+
+//@ func (s *Server) handlePADT
+//@   ghost lastSession *Session = nil
+//@   ghost removedID mathint = 0 - 1
+//@   modifies *
+//@   ensures lastSession != nil && !sameBytes(clientMAC, old(lastSession.ClientMAC)) ==> removedID == 0 - 1
